@@ -315,7 +315,8 @@ def spawnProc (s : Sys) (n : Name) : Sys :=
   let (s, i) := newInst s n
   -- a new instance starts its life cycle in state Pending
   let s := setState s i .pending
-  let s := { s with running := s.running.set n (some i), wg := s.wg + 1 }
+  -- registered as running, and no longer an ended process: `removeDoneProcess`
+  let s := { s with running := s.running.set n (some i), doneM := s.doneM.set n none, wg := s.wg + 1 }
   s.spawn (.proc i)
 
 /-- `Run()` registers and spawns every non-deferred process before any of them runs (the loop
